@@ -169,7 +169,9 @@ class Model:
             a, b = self.eval(prog[1]), self.eval(prog[2])
             if a.cols != b.cols:
                 raise ModelError("chain columns differ")
-            return MRel(a.cols, [dict(r) for r in a.rows] + [dict(r) for r in b.rows], False, engine=a.engine)
+            # concatenation in an order-keeping engine is determined if both operands are
+            det = a.det and b.det and a.engine == b.engine and a.engine in self.ordered_engines
+            return MRel(a.cols, [dict(r) for r in a.rows] + [dict(r) for r in b.rows], det, engine=a.engine)
         if op == "join":
             a, b = self.eval(prog[1]), self.eval(prog[2])
             p = prog[3]
@@ -226,7 +228,10 @@ class Model:
             rows = m_sort(t.rows, terms)
             if self.stable_sorts and t.det and t.sort_cols is not None and t.sort_visible and not sort_is_total(rows, terms):
                 return MRel(t.cols, rows, True, frozenset(need) | t.sort_cols, True, engine=t.engine)
-            return MRel(t.cols, rows, sort_is_total(rows, terms), frozenset(need), True, engine=t.engine)
+            # in an engine that keeps row order (iteration) a stable sort of a determined list is
+            # determined even when the terms leave ties
+            det = sort_is_total(rows, terms) or (t.det and t.engine in self.ordered_engines)
+            return MRel(t.cols, rows, det, frozenset(need), True, engine=t.engine)
         if op == "slice":
             start, stop = prog[2], prog[3]
             if self.sql_slices and not t.det and not slice_order_independent(t.rows, start, stop):
